@@ -84,7 +84,7 @@ Proof.
     (* the generic branch: another Diag-class object, or MatmulLinearOperator *)
     match type of HX with
     | (if ?c then _ else _) = _ => idtac
-    | mk_matmul _ _ = _ => apply (mk_matmul_correct _ _ _ HE HO) in HX; exact (proj1 HX)
+    | mk_matmul _ _ = _ => apply (mk_matmul_correct _ _ _) in HX; exact (proj1 HX)
     end).
   - (* Dense *)
     destruct (bcompat (bsh (diag_of e)) (bsh t) && Nat.eqb (nr (diag_of e)) (nr t)) eqn:C; [|discriminate]. okinv HX.
@@ -122,7 +122,7 @@ Proof.
     rewrite (mk_tri_denote _ _ _ HX0). exact HM.
   - (* KronC *)
     destruct k as [|u|].
-    1,2: apply (mk_matmul_correct _ _ _ HE HO) in HX; exact (proj1 HX).
+    1,2: apply (mk_matmul_correct _ _ _) in HX; exact (proj1 HX).
     assert (DK : is_diag (KronC KKronDiag ops) = true) by reflexivity.
     change (match (if rcompat (col_to_raw (diag_of e)) (col_to_raw (diag_of (KronC KKronDiag ops)))
                    then Ok (Diag (raw_to_col (rmul (col_to_raw (diag_of e)) (col_to_raw (diag_of (KronC KKronDiag ops))))))
@@ -156,7 +156,7 @@ Theorem alg_matmul_correct e o r :
 Proof.
   intros HE HO EC HS HX.
   destruct e; simpl in HX;
-    try (apply (mk_matmul_correct _ _ _ HE HO) in HX; exact (proj1 HX));
+    try (apply (mk_matmul_correct _ _ _) in HX; exact (proj1 HX));
     try discriminate.
   - (* Diag *) apply (diag_matmul_correct (Diag d) o); try assumption; reflexivity.
   - (* CDiag *)
@@ -182,6 +182,6 @@ Proof.
     simpl. apply BTeq_sym. eapply BTeq_trans; [apply dmm_dzero_l|].
     change (bsh (denote o)) with (batch o). rewrite (bsub_bcast_eq _ _ HS). apply BTeq_refl.
   - (* KronC *)
-    destruct k; try (apply (mk_matmul_correct _ _ _ HE HO) in HX; exact (proj1 HX)).
+    destruct k; try (apply (mk_matmul_correct _ _ _) in HX; exact (proj1 HX)).
     apply (diag_matmul_correct (KronC KKronDiag ops) o); try assumption; reflexivity.
 Qed.
